@@ -145,6 +145,6 @@ package par
 //@   requires w.running == 0 && gS[w] == 0 && gK[w] == 0 && gX[w] == 0 && gF[w] == 0 && gSpawned[w] == 0 && w.waiting == 0 && !gHeld[w]
 //@   at call go:(*par.Work).runner#1: ghost gSpawned[w] = gSpawned[w] + 1
 //@   at call (*par.Work).runner#1: ghost gSpawned[w] = gSpawned[w] + 1; myR = 1
-//@   at call (*par.Work).runner#1: requires gSpawned[w] == w.running
+//@   at call (*par.Work).runner#1: requires gSpawned[w] == w.running && w.running == old(n)
 //@   loop 1: invariant w.running == n && n >= 1 && myHeld == 0 && myR == 0 && myF == 0 && myDo == w && 0 <= rangeint && gSpawned[w] == rangeint && rangeint < n - 1
 //@   ensures myHeld == 0
